@@ -17,4 +17,5 @@ CONSTANTS
 INVARIANT QuoteOK
 INVARIANT ClosureKnown
 INVARIANT NoCrash
+INVARIANT LengthsCovered
 CHECK_DEADLOCK FALSE
